@@ -98,6 +98,7 @@ def run(ctx, tier):
     ctx.rule("E1", "no exception can leave the library: no throw, regex calls fenced")
     ctx.rule("E2", "optional-like objects are accessed only when engaged")
     ctx.rule("E2b", "std::get<T> on a variant only when it holds T")
+    ctx.rule("E3", "range-checked accessors (vector::at, string::at) are reached only with an index known to be in range")
     ctx.rule("T1", "the URL parser's state loop has a lexicographic ranking (state order, remaining input)")
     ctx.rule("T2", "loops keep the variant that makes them terminate")
     ctx.rule("S1", "(shared with C07) every shift of a url_aggregator offset is applied to every later offset on the path")
@@ -117,6 +118,7 @@ def run(ctx, tier):
         ctx.set_config(name)
         check_exceptions(ctx, fxs[name])
         check_engagement(ctx, fxs[name])
+        check_at_calls(ctx, fxs[name])
     for name in isa:
         ctx.set_config(name)
         check_blocks(ctx, fxs[name], name)
@@ -960,3 +962,44 @@ def check_decomposition_sizing(ctx, fx):
               "too little and the backwards fill writes in front of the buffer" % (src["qname"], sorted(counted), sorted(written)),
               where=src["loc"].replace("/repo/", ""))
     ctx.floor("M5", 1, 1, "sizing / writing pair")
+
+
+# ---------------------------------------------------------------------------
+def check_at_calls(ctx, fx):
+    """E3.  x.at(i) throws std::out_of_range when i >= x.size(); nothing in the library catches it, and through the C API it
+    crosses an extern "C" boundary (std::terminate for a C caller).  Every at() must therefore be dominated by a comparison
+    that puts the index below the size of that same container."""
+    from lib.condflow import closure
+    n = 0
+    for f in fx.functions:
+        if not C.first_party(f):
+            continue
+        sites = []
+        for b in f["blocks"]:
+            for i, st in enumerate(b["stmts"]):
+                for nd in X.stmt_nodes(st, local=True):
+                    if nd.get("k") == "call" and nd.get("name") == "at" and nd.get("recv") is not None and len(nd.get("args", [])) == 1 \
+                            and (nd.get("cls") or "").startswith(("std::vector<", "std::basic_string", "std::array<", "std::deque<")):
+                        sites.append((b, i, st, nd))
+        if not sites:
+            continue
+        cf = CondFlow(f)
+        for b, i, st, nd in sites:
+            fs = cf.facts_before(b["id"], i)
+            if fs is None:
+                continue
+            n += 1
+            fs = closure(fs)
+            its, ic = lin(nd["args"][0])
+            size = rn(nd["recv"]) + ".size()"
+            ok = False
+            for (op, ts, c) in fs:
+                if tuple(t for t in ts if t.startswith("+")) == its and ("-" + size) in ts and len([t for t in ts if t.startswith("-")]) == 1:
+                    if (op == "lt" and c >= ic) or (op == "le" and c >= ic + 1):
+                        ok = True
+            ctx.check("E3", "%s: %s" % (f["qname"], X.show(nd)[:60]), ok, "index < %s on every path" % size,
+                      "`%s` is reached without a dominating check that the index is below %s: an out-of-range index throws "
+                      "std::out_of_range, which nothing catches%s" % (X.show(nd)[:60], size,
+                                                                     " — and this is an extern \"C\" function" if f.get("extern_c") else ""),
+                      where=(st.get("loc") or "").replace("/repo/", ""))
+    ctx.floor("E3", n, 1, "at() calls")
